@@ -63,6 +63,11 @@ add("C09", "runtime monitor: independent chain checker re-verifying every stored
     "The OER codec (asn1tools + the ASN.1 module) and python-ecdsa are trusted; only roots given to add_root_certificate by the harness count as configured.",
     "DESIGN.md 3/C09")
 
+add("C03", "runtime monitor: provenance oracle over frames injected into a real security-ENABLED receiver (every frame is genuine-as-emitted or forged by construction)",
+    "Exploration: an honest real sender emits CAM/VAM-profile SHBs (certificate and digest signer forms), a DENM-profile GBC and a generic-profile SHB; a real receiver with itsGnSecurity ENABLED (fresh / taught by a genuine certificate frame / pre-loaded with the ticket) is fed shuffled streams of every single-bit flip of a frame (thorough; 256 sampled flips quick), byte substitutions, truncations, extensions, 20+ structure-level mutations re-encoded with the OER coder (payload, psid, generationTime, signer swap, attacker certificate, certificate permissions/validity, r/s incl. 0, n, n-s, swapped, point form, extra header field), frames signed under an attacker-built root/AA/AT chain, by an attacker ticket claiming the genuine AA, by the attacker key under the genuine digest, and unsecured SHB/GBC/beacon, interleaved with genuine frames; any GN indication or BTP handler call for a frame whose signed data, signer or signature differs from what an honest station emitted is a violation.",
+    "Mutations that leave tbsData, signer and signature identical after decoding (encoding slack, trailing octets, unsigned basic header / hashId) may be delivered; exceptions count as not delivered (C04); python-ecdsa trusted.",
+    "DESIGN.md 3/C03")
+
 NOT_YET = "check not built yet (work in progress; runtime monitor planned in DESIGN.md section 3)"
 
 def main():
